@@ -359,20 +359,22 @@ example : (aOutputs (freshObj ([(1, 0), (-1, 0)] : List (Int × Int)))
       [AOp.fillC 0 [(2, 0)], AOp.demodulate 0, AOp.fillC 0 [(-2, 0)], AOp.demodulate 0])
     = [AOut.none, AOut.indexes [0], AOut.none, AOut.indexes [1]] := by rfl
 
-/-- Tie to the source: the grid coordinates, the storage index, the average-energy
+/-- Tie to the source: the grid coordinates, the storage index (with the size equalities a vectorised
+    construction of the grid needs), the average-energy
     expression and the PSK phase expression re-translated from `fundamental.py` on every run
     are the ones of the model the constellation theorems are about (BPSK literal = `[1,-1]`). -/
 theorem generated_constellation_matches_model :
     (∀ (L ii jj : Nat), jj < L →
       qamGridPoint L (Int.toNat (Generated.C01.qamIndex L jj ii))
         = (Generated.C01.qamRe L jj ii, Generated.C01.qamIm L jj ii)) ∧
+    (∀ (L : Nat), 1 ≤ L → Generated.C01.qamShapeOk (L : Int)) ∧
     (∀ (L : Nat), 1 ≤ L →
       Generated.C01.qamAvgEnergy (((L * L : Nat) : ℝ)) =
         (((L * L - 1 : Nat) : ℝ) * ((2 : Nat) : ℝ)) / ((3 : Nat) : ℝ)) ∧
     (∀ (M k : Nat) (φ : ℝ), pskNaturalPoint M k φ =
       (Real.cos (Generated.C01.pskPhase M k φ), Real.sin (Generated.C01.pskPhase M k φ))) ∧
     Generated.C01.bpskPoints = [1, -1] := by
-  refine ⟨?_, ?_, ?_, rfl⟩
+  refine ⟨?_, ?_, ?_, ?_, rfl⟩
   · intro L ii jj hj
     have hL : 0 < L := by omega
     have e : Generated.C01.qamIndex L jj ii = ((ii * L + jj : Nat) : Int) := by
@@ -382,12 +384,21 @@ theorem generated_constellation_matches_model :
       rw [Nat.mul_comm, Nat.mul_add_mod]; exact Nat.mod_eq_of_lt hj
     have hd : (ii * L + jj) / L = ii := by
       rw [Nat.mul_comm, Nat.mul_add_div hL, Nat.div_eq_of_lt hj, Nat.add_zero]
-    simp only [qamGridPoint, hm, hd, Generated.C01.qamRe, Generated.C01.qamIm, Prod.mk.injEq]
+    -- (a vectorised source addresses the element through its flat index: `% L` is the column, `/ L` the row)
+    have hmI : ((ii : Int) * (L : Int) + (jj : Int)) % (L : Int) = (jj : Int) := by exact_mod_cast hm
+    have hdI : ((ii : Int) * (L : Int) + (jj : Int)) / (L : Int) = (ii : Int) := by exact_mod_cast hd
+    simp only [qamGridPoint, hm, hd, Generated.C01.qamRe, Generated.C01.qamIm, Prod.mk.injEq, hmI, hdI]
     constructor <;> ring
+  · -- the sizes a vectorised construction relies on (`True` for the explicit loops)
+    intro L hL
+    have hL' : (1 : Int) ≤ (L : Int) := by exact_mod_cast hL
+    unfold Generated.C01.qamShapeOk
+    repeat' apply And.intro
+    all_goals first | trivial | rfl | omega | ring
   · intro L hL
     have h1 : 1 ≤ L * L := by nlinarith
-    simp only [Generated.C01.qamAvgEnergy]
-    rw [Nat.cast_sub h1]
+    -- (`ring` absorbs a re-ordered spelling of the same product, e.g. `2.0 * (M - 1) / 3.0`)
+    (simp only [Generated.C01.qamAvgEnergy]; rw [Nat.cast_sub h1]) <;> ring
   · intro M k φ
     simp only [pskNaturalPoint, Generated.C01.pskPhase, Trig.cos, Trig.sin, Trig.pi]
 
